@@ -53,6 +53,31 @@ fn draw(fam: Fam, n: usize) -> Result<Vec<Vec<u64>>, Fail> {
     Ok(v)
 }
 
+/// rank over GF(2) of the rows (each `words` u64 wide)
+fn gf2_rank(rows: &[Vec<u64>], words: usize) -> usize {
+    let mut m: Vec<Vec<u64>> = rows.to_vec();
+    let mut rank = 0;
+    for col in 0..words * 64 {
+        let (w, b) = (col / 64, col % 64);
+        if let Some(p) = (rank..m.len()).find(|r| (m[*r][w] >> b) & 1 != 0) {
+            m.swap(rank, p);
+            let pivot = m[rank].clone();
+            for r in 0..m.len() {
+                if r != rank && (m[r][w] >> b) & 1 != 0 {
+                    for k in 0..words {
+                        m[r][k] ^= pivot[k];
+                    }
+                }
+            }
+            rank += 1;
+            if rank == m.len() {
+                break;
+            }
+        }
+    }
+    rank
+}
+
 fn check_thread(fam: Fam, n: usize, who: &str, v: &[Vec<u64>]) -> Result<(), Fail> {
     let words = words_for(n);
     let bits = 1usize << n;
@@ -72,6 +97,21 @@ fn check_thread(fam: Fam, n: usize, who: &str, v: &[Vec<u64>]) -> Result<(), Fai
             return Err(Fail {
                 sig: "position-never-varies".into(),
                 msg: format!("{}::random(n={}) on {}: assignment {} received only the value {} in {} draws (word {})", fam.label(), n, who, m, (ones[w] >> k) & 1, DRAWS, w),
+            });
+        }
+    }
+    // the draws are not confined to a low-dimensional subspace: rank over GF(2) of the 256 draws
+    // (as vectors of 2^n bits). For a fair generator a deficiency of k below min(256, 2^n) has
+    // probability about 2^-(k^2) (k = 24: < 2^-500); a generator whose table is a function of a
+    // few of its own bits (only the first word random, the other words derived from it by a linear
+    // recurrence, repeated words, ...) has rank <= the number of free bits
+    let full = std::cmp::min(v.len(), bits);
+    if full >= 32 {
+        let rank = gf2_rank(v, words);
+        if rank + 24 < full {
+            return Err(Fail {
+                sig: "low-rank".into(),
+                msg: format!("{}::random(n={}) on {}: the {} draws span only a {}-dimensional subspace of GF(2)^{} (expected about {}): the tables are functions of few independent bits", fam.label(), n, who, v.len(), rank, bits, full),
             });
         }
     }
@@ -172,7 +212,7 @@ fn enumerate(t: Tier, shard: usize, nshards: usize, f: &mut dyn FnMut(Case) -> b
 pub fn def() -> PropDef {
     PropDef {
         id: "C19",
-        rule: "cases = (family, n in 0..=12, thread count in {1, 16}); the inputs are random()'s own draws: 256 draws on the main thread, and 256 draws on each of 16 threads released together by a barrier. Every draw must be well formed (block count, no bit >= 2^n, value() consistent with blocks()); per thread, every assignment must receive both values among the 256 draws, the draws must not all be equal, must be pairwise distinct for n >= 8 (at most one repeat for n = 7); no two threads may produce the same sequence for n >= 3, and for n >= 8 no table may repeat across threads. All (family, n, threads) combinations are swept 4 times (quick) or 16 times (thorough): 208 resp. 832 sweeps of 256 draws per thread. Every case is non-trivial (distinct by family, n, threads); evaluations counts sweeps, the evidence also reports draws.",
+        rule: "cases = (family, n in 0..=12, thread count in {1, 16}); the inputs are random()'s own draws: 256 draws on the main thread, and 256 draws on each of 16 threads released together by a barrier. Every draw must be well formed (block count, no bit >= 2^n, value() consistent with blocks()); per thread, every assignment must receive both values among the 256 draws, the draws must not all be equal, must span a subspace of GF(2)^(2^n) of dimension >= min(256, 2^n) - 24 (n >= 5), must be pairwise distinct for n >= 8 (at most one repeat for n = 7); no two threads may produce the same sequence for n >= 3, and for n >= 8 no table may repeat across threads. All (family, n, threads) combinations are swept 4 times (quick) or 16 times (thorough): 208 resp. 832 sweeps of 256 draws per thread. Every case is non-trivial (distinct by family, n, threads); evaluations counts sweeps, the evidence also reports draws.",
         assumptions: vec![
             "statistical: thresholds chosen so that a fair generator raises an alarm with probability < 2^-200 per run",
             "thread_rng cannot be seeded: VERIF_SEED only labels the run; schedules are explored as `16 threads started together`",
